@@ -69,6 +69,8 @@ type Inst struct {
 	done   chan struct{}
 	closer func()
 	dead   bool
+	deadA  atomic.Bool
+	flight sync.RWMutex
 }
 
 // Caller is the identity under which the instance appears at the fake MySQL servers.
@@ -112,6 +114,8 @@ type Sim struct {
 	nextPort   int
 	// DCSGate, when set, can fail a coordination call of an instance before it reaches the server.
 	DCSGate   func(inst, method, path string) error
+	dcsSubs   []func(inst, method, path, arg, res string)
+	iterSubs  []func(inst, state, next string, begin bool)
 	incarn    map[string]int
 	ctx       context.Context
 	cancel    context.CancelFunc
@@ -119,11 +123,72 @@ type Sim struct {
 	files     map[string]bool
 	resetupAt map[string]time.Time
 
+	Cache   TreeCache
+	started bool
+
 	WorkloadOn       atomic.Bool
 	ResetupOn        atomic.Bool
 	ResetupTime      time.Duration
 	PumpHook         func() // called once per pump step outside all mutexes
 	PumpHookInternal func()
+}
+
+// TreeCache mirrors a few coordination keys so that world hooks (which hold the world mutex)
+// can read them without touching the fake ZooKeeper's mutex.
+type TreeCache struct {
+	mu    sync.Mutex
+	Nodes map[string]string // path below NS -> data, for master, active_nodes, switch, maintenance, recovery/*, optimization_nodes/*, last_switch, last_rejected_switch
+}
+
+func (s *Sim) cacheUpdate(r fakezk.Rec) {
+	if !strings.HasPrefix(r.Path, NS+"/") {
+		return
+	}
+	p := strings.TrimPrefix(r.Path, NS+"/")
+	if strings.HasPrefix(p, "health/") || strings.HasPrefix(p, "resetup_status") || strings.HasPrefix(p, "timing") {
+		return
+	}
+	s.Cache.mu.Lock()
+	defer s.Cache.mu.Unlock()
+	switch r.Op {
+	case "create", "set":
+		s.Cache.Nodes[p] = r.Data
+	case "delete", "expire-delete":
+		delete(s.Cache.Nodes, p)
+	}
+}
+
+// Cached returns the cached data of a coordination key below the namespace.
+func (s *Sim) Cached(path string) (string, bool) {
+	s.Cache.mu.Lock()
+	defer s.Cache.mu.Unlock()
+	v, ok := s.Cache.Nodes[path]
+	return v, ok
+}
+
+// CachedChildren lists cached keys directly below prefix.
+func (s *Sim) CachedChildren(prefix string) []string {
+	s.Cache.mu.Lock()
+	defer s.Cache.mu.Unlock()
+	var out []string
+	for k := range s.Cache.Nodes {
+		if strings.HasPrefix(k, prefix+"/") && !strings.Contains(k[len(prefix)+1:], "/") {
+			out = append(out, k[len(prefix)+1:])
+		}
+	}
+	sort.Strings(out)
+	return out
+}
+
+// CachedMaster returns the recorded master from the cache.
+func (s *Sim) CachedMaster() string {
+	v, ok := s.Cached("master")
+	if !ok {
+		return ""
+	}
+	var m string
+	_ = json.Unmarshal([]byte(v), &m)
+	return m
 }
 
 // AllHosts returns HA + cascade hosts.
@@ -148,6 +213,7 @@ func New(dir string, o Opts) *Sim {
 		Insts: map[string]*Inst{}, portHost: map[int]string{}, portCaller: map[int]string{}, nextPort: 3300, incarn: map[string]int{},
 		files: map[string]bool{}, resetupAt: map[string]time.Time{}, ResetupTime: 20 * time.Second}
 	s.ctx, s.cancel = context.WithCancel(context.Background())
+	s.Cache.Nodes = map[string]string{}
 	s.WorkloadOn.Store(o.Workload)
 	s.ResetupOn.Store(o.ResetupTool)
 	hosts := s.AllHosts()
@@ -166,6 +232,13 @@ func New(dir string, o Opts) *Sim {
 		srv := s.W.AddServer(h, UUIDOf(100+i))
 		srv.Source, srv.IORun, srv.SQLRun = o.HA[0], true, true
 	}
+	s.ZK.OnMutation = func(r fakezk.Rec) {
+		s.cacheUpdate(r)
+		if strings.HasPrefix(r.Path, NS+"/health/") && r.Op == "set" {
+			return // periodic health refresh; the dcs log has it
+		}
+		s.W.Log(world.Event{Kind: "zk", Who: r.Client, Class: r.Op, Host: r.Path, Arg: r.Data, Mut: true, ID: r.Sess})
+	}
 	s.ZK.Put("setup", NS+"/ha_nodes", "")
 	for _, h := range o.HA {
 		s.ZK.Put("setup", NS+"/ha_nodes/"+h, `{"priority":0}`)
@@ -173,19 +246,23 @@ func New(dir string, o Opts) *Sim {
 	for h, src := range o.Cascade {
 		s.ZK.Put("setup", NS+"/cascade_nodes/"+h, fmt.Sprintf(`{"stream_from":%q}`, src))
 	}
-	s.ZK.OnMutation = func(r fakezk.Rec) {
-		if strings.HasPrefix(r.Path, NS+"/health/") && r.Op == "set" {
-			return // periodic health refresh; the dcs log has it
-		}
-		s.W.Log(world.Event{Kind: "zk", Who: r.Client, Class: r.Op, Host: r.Path, Arg: r.Data, Mut: true, ID: r.Sess})
-	}
 	if o.PreConverged {
 		s.preConverge()
 	}
 	curSim.Store(s)
-	if !o.NoAutoStart {
-		for i, h := range hosts {
-			if o.NoDaemon[h] {
+	return s
+}
+
+// Start launches the pump and (unless NoAutoStart) one daemon per host, with seeded phase offsets.
+// Monitors must have subscribed before.
+func (s *Sim) Start() {
+	if s.started {
+		return
+	}
+	s.started = true
+	if !s.O.NoAutoStart {
+		for i, h := range s.AllHosts() {
+			if s.O.NoDaemon[h] {
 				continue
 			}
 			s.StartInst(h, time.Duration(i)*700*time.Millisecond+time.Duration(s.Rng.Intn(600))*time.Millisecond)
@@ -193,7 +270,6 @@ func New(dir string, o Opts) *Sim {
 	}
 	s.wg.Add(1)
 	go s.pump()
-	return s
 }
 
 func (s *Sim) cfgFor(host string) *config.Config {
@@ -318,18 +394,27 @@ func (s *Sim) StartInst(host string, delay time.Duration) *Inst {
 		inner, err := dcs.NewZookeeperVerif(ctx, &cfg.Zookeeper, logger, func(network, address string, timeout time.Duration) (net.Conn, error) {
 			c, err := s.ZK.Dial(name)
 			if err != nil {
-				time.Sleep(time.Millisecond)
+				time.Sleep(5 * time.Millisecond) // paces the client's reconnect loop under a virtual clock
 			}
 			return c, err
 		})
 		if err != nil {
 			panic(err)
 		}
-		d := &recDCS{inner: inner, zk: s.ZK, w: s.W, name: name, gate: func(m, p string) error {
+		d := &recDCS{inner: inner, zk: s.ZK, w: s.W, name: name, flight: &in.flight, gate: func(m, p string) error {
+			if in.deadA.Load() {
+				return errCut
+			}
 			if g := s.DCSGate; g != nil {
 				return g(name, m, p)
 			}
 			return nil
+		}, after: func(m, p, arg, res string) {
+			if !in.deadA.Load() {
+				for _, f := range s.dcsSubs {
+					f(name, m, p, arg, res)
+				}
+			}
 		}}
 		a, err := app.NewVerifApp(cfg, logger, closer, d)
 		if err != nil {
@@ -342,6 +427,9 @@ func (s *Sim) StartInst(host string, delay time.Duration) *Inst {
 				ph = "call"
 			}
 			s.W.Log(world.Event{Kind: "iter", Who: name, Host: host, Class: state, Res: next, Phase: ph})
+			for _, f := range s.iterSubs {
+				f(name, state, next, begin)
+			}
 		})
 		s.W.Log(world.Event{Kind: "world", Who: name, Host: host, Class: "inst-exit"})
 	}()
@@ -365,7 +453,8 @@ func (s *Sim) Kill(host string) *Inst {
 		return in
 	}
 	in.dead = true
-	s.ZK.Cut(in.Name, true)
+	in.deadA.Store(true)
+	s.zkFault(in, func() { s.ZK.Cut(in.Name, true) })
 	s.W.KillCaller(in.Caller())
 	in.cancel()
 	return in
@@ -377,14 +466,24 @@ func (s *Sim) KillLocked(in *Inst) {
 		return
 	}
 	in.dead = true
+	in.deadA.Store(true)
 	conns := s.W.KillCallerLocked(in.Caller())
 	go func() {
-		s.ZK.Cut(in.Name, true)
+		s.zkFault(in, func() { s.ZK.Cut(in.Name, true) })
 		for _, c := range conns {
 			c.Close()
 		}
 		in.cancel()
 	}()
+}
+
+// OnDCS subscribes to every recorded coordination call (called outside all mutexes, after the call returned).
+// Subscriptions must be made before instances start.
+func (s *Sim) OnDCS(f func(inst, method, path, arg, res string)) { s.dcsSubs = append(s.dcsSubs, f) }
+
+// OnIter subscribes to the begin/end of every state handler.
+func (s *Sim) OnIter(f func(inst, state, next string, begin bool)) {
+	s.iterSubs = append(s.iterSubs, f)
 }
 
 // Inst returns the current incarnation on host.
@@ -406,10 +505,44 @@ func (s *Sim) InstByName(name string) *Inst {
 	return nil
 }
 
+// zkFault applies a connection-level fault to an instance's ZooKeeper client while no
+// coordination call of that instance is in flight.
+func (s *Sim) zkFault(in *Inst, f func()) {
+	in.flight.Lock()
+	f()
+	in.flight.Unlock()
+}
+
+// ExpireSession expires the ZooKeeper session of an instance (by identity) and resets its connection.
+func (s *Sim) ExpireSession(name string) {
+	if in := s.InstByName(name); in != nil {
+		s.zkFault(in, func() {
+			s.ZK.ExpireClient(in.Name)
+			s.ZK.ResetConns(in.Name)
+		})
+		s.W.Log(world.Event{Kind: "world", Who: "world", Host: in.Host, Class: "zk-session-expired", Arg: in.Name})
+	}
+}
+
+// ZKOutage cuts (or heals) the coordination service for everybody.
+func (s *Sim) ZKOutage(on bool) {
+	s.mu.Lock()
+	insts := append([]*Inst(nil), s.AllInsts...)
+	s.mu.Unlock()
+	for _, in := range insts {
+		in.flight.Lock()
+	}
+	s.ZK.Outage(on)
+	for _, in := range insts {
+		in.flight.Unlock()
+	}
+	s.W.Log(world.Event{Kind: "world", Who: "world", Host: "*", Class: map[bool]string{true: "zk-outage", false: "zk-outage-end"}[on]})
+}
+
 // CutZK cuts (or heals) the coordination service for the daemon on host.
 func (s *Sim) CutZK(host string, on bool) {
 	if in := s.Inst(host); in != nil {
-		s.ZK.Cut(in.Name, on)
+		s.zkFault(in, func() { s.ZK.Cut(in.Name, on) })
 		s.W.Log(world.Event{Kind: "world", Who: "world", Host: host, Class: map[bool]string{true: "zk-cut", false: "zk-heal"}[on]})
 	}
 }
